@@ -159,6 +159,9 @@ class Plan:
             L.append("now=%d.%09d" % (self.now[0], self.now[1]))
         if getattr(self, "stdin_delay", None):
             L.append("stdin_delay=%d" % self.stdin_delay)       # seconds the path list on stdin takes to arrive (rt/src/clock.rs)
+        if getattr(self, "append", None):
+            # (step, path relative to the run directory, bytes): a writer outside the program appends to a log at that step
+            L.append("append=%d:%s:%s" % (self.append[0], self.append[1], bytes(self.append[2]).hex()))
         if self.choices is not None:
             L.append("choices=%s" % ",".join(str(c) for c in self.choices))
         if self.picks is not None:
@@ -168,12 +171,18 @@ class Plan:
         return "\n".join(L) + "\n"
 
     def to_json(self):
-        return dict(self.__dict__)
+        d = dict(self.__dict__)
+        if d.get("append"):
+            d["append"] = [d["append"][0], d["append"][1], bytes(d["append"][2]).hex()]
+        return d
 
     @staticmethod
     def from_json(d):
         p = Plan()
         p.__dict__.update(d)
+        if getattr(p, "append", None):
+            a = p.append
+            p.append = (a[0], a[1], bytes.fromhex(a[2]) if isinstance(a[2], str) else bytes(a[2]))
         if p.now is not None:
             p.now = tuple(p.now)
         return p
